@@ -533,9 +533,11 @@ fn run(ctx: &mut Ctx) {
     ] {
         all_positions(ctx, s);
     }
-    // known finding lexical-debug-assert-dot-underscore (panics with debug assertions on)
-    lex_case(ctx, "1._0000000000000000001");
-    pos_case(ctx, &POSITIONS[0], "1._0000000000000000001");
+    // regression witnesses of the lexical debug-assertion panic (fixed in /repo c330f06)
+    for s in ["1._0000000000000000001", "45._13920674617104288926664e272", "0o7._777777777777777777_30", "1._e5"] {
+        lex_case(ctx, s);
+        all_positions(ctx, s);
+    }
     // 2. lexer, exhaustive short strings
     let (l1, l2) = if quick { (4, 3) } else { (6, 5) };
     for len in 0..=l1 {
